@@ -775,8 +775,67 @@ var badKeys = []string{
 	strings.Repeat("z", 64),
 }
 
+// aliasKey derives a string that is NOT a key from keys of stored objects: path
+// suffixes and prefixes that the file system would resolve to an object file, to
+// another object, to the staging directory or out of the store.  None of them may
+// ever be found (the bytes would not hash to the string that was asked for).
+func aliasKey(r *hx.Rng, keys []string) string {
+	k := keys[r.Intn(len(keys))]
+	o := keys[r.Intn(len(keys))]
+	switch r.Intn(14) {
+	case 0:
+		return k + "/"
+	case 1:
+		return k + "/."
+	case 2:
+		return k + "/../" + o
+	case 3:
+		return o + "/../" + k
+	case 4:
+		return "./" + k
+	case 5:
+		return k + "/../tmp"
+	case 6:
+		return k + "/../tmp/../" + o
+	case 7:
+		return strings.ToUpper(k)
+	case 8:
+		return k + "x"
+	case 9:
+		return k + "\x00"
+	case 10:
+		return "/" + k
+	case 11:
+		return k + "//"
+	case 12:
+		return strings.Repeat("0", 64) + "/../" + k
+	default:
+		return k[:63]
+	}
+}
+
+// fixed alias histories: every alias shape against two stored objects
+func (g *gen) fsAliases() {
+	r := g.r
+	for rep := 0; rep < 3; rep++ {
+		d1, d2 := g.content(), g.content()
+		ops := []Op{{Op: "create", plan: splitPlan(r, d1, 1, 0)}, {Op: "create", plan: splitPlan(r, d2, 2, 0)}}
+		k1, k2 := shaHex(d1), shaHex(d2)
+		z := strings.Repeat("0", 64)
+		for _, a := range []string{
+			k1 + "/", k1 + "/.", k1 + "/../" + k2, z + "/../" + k2, z + "/../" + k1, "./" + k1, k1 + "/../tmp",
+			k1 + "/../tmp/../" + k2, strings.ToUpper(k1), k1 + "x", k1 + "\x00", "/" + k1, k1 + "//", k2[:63],
+			z + "/../../" + k1, k1 + "/../../x",
+		} {
+			ops = append(ops, Op{Op: "open", Key: a}, Op{Op: "has", Key: a})
+		}
+		g.runFsOps("fs-alias", ops, false)
+	}
+}
+
 func (g *gen) fsHistories(n int) {
 	r := g.r
+	g.fsAliases()
 	// fixed: a failing input followed by the same content succeeding
 	for i := 0; i < n; i++ {
 		var ops []Op
@@ -814,6 +873,9 @@ func (g *gen) fsHistories(n int) {
 				} else if r.Intn(3) == 0 {
 					k = badKeys[r.Intn(len(badKeys))]
 				}
+				if len(keys) > 0 && r.Intn(6) == 0 {
+					k = aliasKey(r, keys)
+				}
 				ops = append(ops, Op{Op: "open", Key: k})
 			default:
 				k := shaHex(g.content())
@@ -821,6 +883,9 @@ func (g *gen) fsHistories(n int) {
 					k = keys[r.Intn(len(keys))]
 				} else if r.Intn(3) == 0 {
 					k = badKeys[r.Intn(len(badKeys))]
+				}
+				if len(keys) > 0 && r.Intn(6) == 0 {
+					k = aliasKey(r, keys)
 				}
 				ops = append(ops, Op{Op: "has", Key: k})
 			}
